@@ -1425,7 +1425,8 @@ class CombineFCN(object):
     def grad_hessp(self, x, p, batch=None):
         grad, hessp = self.get_grad_hessp(x, p, batch)
         constr_grad = self.gauss_constr.get_constrain_grad()
-        return grad + constr_grad, hessp
+        constr_hessp = np.dot(self.gauss_constr.get_constrain_hessian(), p)
+        return grad + constr_grad, hessp + constr_hessp
 
 
 class MixLogLikehoodFCN(CombineFCN):
